@@ -1,9 +1,9 @@
 package props
 
 import (
-	"go/types"
 	"fmt"
 	"go/ast"
+	"go/types"
 	"strings"
 
 	"golang.org/x/tools/go/ssa"
@@ -305,7 +305,9 @@ func streamRoles(c *Ctx, row entRow, h *ssa.Function) {
 	w, r := c.W, c.R
 	key := row.Module + "." + row.Method
 	n := 0
-	for _, in := range instantiate(c, h, func(e ir.Effect) bool { return strings.HasPrefix(e.Kind, "Store") && e.Section == secStreams && e.Key != nil }, func(e ir.Effect) *ir.Expr { return e.Key }) {
+	for _, in := range instantiate(c, h, func(e ir.Effect) bool {
+		return strings.HasPrefix(e.Kind, "Store") && e.Section == secStreams && e.Key != nil
+	}, func(e ir.Effect) *ir.Expr { return e.Key }) {
 		n++
 		ka := keyArgs(in.E)
 		ok := len(ka) == 2 && isAddrOf(ka[0], "Receiver") && isAddrOf(ka[1], "Sender")
